@@ -268,7 +268,7 @@ func h10b(S, R int) {
 }
 
 func H10b_q() { h10b(2, 2) }
-func H10b_t() { h10b(3, 3) }
+func H10b_t() { h10b(3, 2) }
 
 // H10a: once the client process has ended (any exit status, including 0), the runner reports it as not running.
 func H10a_q() {
